@@ -22,6 +22,8 @@ STEP_SEQS = (
     ('Remove',), ('Duplicate', 'Remove'), ('Remove', 'Duplicate'), ('Duplicate', 'Dependency'),
     ('Remove', 'ModuleWrap', 'Dependency'), ('Duplicate', 'ModuleWrap', 'Dependency'),
     ('DuplicateSub', 'Dependency'), ('Idem', 'ModuleWrap', 'Dependency', 'Idem'),
+    # two renaming passes with different suffixes (e.g. one per processing mode)
+    ('Dependency', 'Dependency2'), ('ModuleWrap', 'Dependency', 'Dependency2'), ('Duplicate', 'Dependency', 'Dependency2'),
 )
 
 
@@ -34,7 +36,7 @@ class ItemHistoryEngine(Engine):
     stubs = ('set order in Scheduler._discover and topological tie-breaks in SFilter -> simulator-chosen legal orders',
              'a recording probe transformation for the "later processing visits them" clause')
     fault_kinds = ('adversarial_set_order_runs', 'adversarial_topo_order_runs')
-    probes = ('steps_applied', 'histories_with_rename', 'histories_with_duplicate', 'histories_with_remove',
+    probes = ('steps_applied', 'histories_with_rename', 'histories_with_two_renames', 'histories_with_duplicate', 'histories_with_remove',
               'final_rediscovery_runs', 'step_raised_inconclusive', 'set_order_choice_points', 'topo_choice_points')
     nontrivial_rule = ('a history is non-trivial if it applied >= 1 item-renaming/creating/removing step and an order '
                        'seam had >= 1 choice point; distinct = digest of (project, config, steps, graph after each step)')
@@ -49,7 +51,7 @@ class ItemHistoryEngine(Engine):
         default_logger.setLevel(logging.CRITICAL + 1)
 
     def gen(self, g, prop, tier):
-        style = g.weighted('style', [('ifs', 6), ('general', 1)])
+        style = g.weighted('style', [('ifs', 6), ('groups', 2), ('general', 1)])
         proj = BG.gen_project(g, tier, style=style)
         plain = g.flip('plain', 3, 4)
         for P in proj['procs'].values():
@@ -101,11 +103,26 @@ class ItemHistoryEngine(Engine):
         if not kernels:
             steps = [s for s in steps if not s.startswith(('Duplicate', 'Remove'))] or ['Idem']
         return {'proj': proj, 'cfg': cfg, 'steps': steps, 'style': style,
-                'dup_kernels': g.sample('dupk', kernels, min(1, len(kernels))),
+                'dup_kernels': self.pick_dup_kernels(g, proj, kernels),
                 'rem_kernels': g.sample('remk', kernels, min(1, len(kernels))),
-                'suffix': g.pick('suffix', ['_test', '_LOKI']),
+                'suffix': g.pick('suffix', ['_test', '_LOKI']), 'suffix2': g.pick('suffix2', ['_b', '_X2']),
                 'final_write': g.flip('finalwrite', 2, 3),
                 'set_random': g.flip('setrnd', 4, 5), 'topo_random': g.flip('toporand', 4, 5)}
+
+    @staticmethod
+    def pick_dup_kernels(g, proj, kernels):
+        if not kernels:
+            return []
+        first = g.pick('dupk', kernels)
+        out = [first]
+        m = proj['procs'][first]['mod']
+        mates = [k for k in kernels if k != first and proj['procs'][k]['mod'] == m and m is not None]
+        if mates and g.flip('dupmates', 1, 2):
+            out += mates
+        rest = [k for k in kernels if k not in out]
+        if rest and g.flip('dupmore', 1, 4):
+            out.append(g.pick('dupk2', rest))
+        return out
 
     def describe(self, scenario):
         d = {k: v for k, v in scenario.items() if k != 'proj'}
@@ -176,6 +193,8 @@ class ItemHistoryEngine(Engine):
             return ModuleWrapTransformation(module_suffix='_mod')
         if name == 'Dependency':
             return DependencyTransformation(suffix=scenario['suffix'], module_suffix='_mod')
+        if name == 'Dependency2':
+            return DependencyTransformation(suffix=scenario.get('suffix2', '_b'), module_suffix='_mod')
         if name in ('Duplicate', 'DuplicateSub'):
             return DuplicateKernel(duplicate_kernels=tuple(scenario['dup_kernels']), duplicate_suffix='_dupl',
                                    duplicate_subgraph=name == 'DuplicateSub')
@@ -201,6 +220,8 @@ class ItemHistoryEngine(Engine):
         steps = scenario['steps']
         if any(s in ('ModuleWrap', 'Dependency') for s in steps):
             run.probe('histories_with_rename')
+        if 'Dependency2' in steps:
+            run.probe('histories_with_two_renames')
         if any(s.startswith('Duplicate') for s in steps):
             run.probe('histories_with_duplicate')
         if 'Remove' in steps:
@@ -255,20 +276,95 @@ class ItemHistoryEngine(Engine):
             f.add('recursive-driver')
         if any(proj['procs'][p]['recursive'] for p in reach if p in proj['procs'] and p not in drivers):
             f.add('recursive-kernel')
-        if scenario.get('style') != 'ifs':
-            f.add('multi-procedure-modules-or-multi-unit-files')
+        # layout features: modules/files of which only a part is in the call tree, or that hold several units
+        rnodes = {n.lower() for n in ref['nodes']}
+        unit_reached = {}
+        for m in proj['mods']:
+            mp = list(m['procs']) + list((m.get('iface') or {}).get('procs', []))
+            r = [q for q in mp if f"{m['name']}#{proj['procs'][q].get('ename', q)}".lower() in rnodes]
+            unit_reached[m['name']] = bool(r) or any(n.startswith(m['name'].lower() + '#') or n == m['name'].lower()
+                                                     for n in rnodes)
+            if r and len(r) < len(mp):
+                f.add('partially-reached-module')
+            elif len(r) >= 2:
+                f.add('multi-procedure-module')
+        for q, Q in proj['procs'].items():
+            if Q['mod'] is None:
+                unit_reached[q] = f'#{q}'.lower() in rnodes
+        for fl in proj['files']:
+            if len(fl['units']) > 1:
+                r = [u for u in fl['units'] if unit_reached.get(u[1])]
+                if r and len(r) < len(fl['units']):
+                    f.add('partially-reached-file')
+                elif len(r) >= 2:
+                    f.add('multi-unit-file')
+        if any(st.startswith('Duplicate') for st in scenario['steps']):
+            for m in proj['mods']:
+                mp = list(m['procs']) + list((m.get('iface') or {}).get('procs', []))
+                dk = set(mp) & set(scenario['dup_kernels'])
+                if any(c['to'] in dk for q in mp if q in proj['procs'] for c in proj['procs'][q]['calls']):
+                    f.add('dup-kernel-called-within-its-module')
+        for m in proj['mods']:
+            r = [q for q in m['procs'] if q in reach]
+            if len(r) >= 2 and any(q in drivers for q in r):
+                f.add('driver-shares-module-with-kernels')
+            excl_entries = [x for rc in list(cfg['routines'].values()) + [cfg['default']]
+                            for key in ('disable', 'block') for x in rc.get(key, [])]
+            if r and any(BG.matches_with_parents(BG.item_name(proj, q), excl_entries) for q in m['procs']
+                         if BG.item_name(proj, q).lower() not in rnodes or q not in r):
+                f.add('module-partially-excluded')
+            ign = [ref['ignored'].get(BG.item_name(proj, q)) for q in r]
+            if any(i is False for i in ign) and any(i is not False for i in ign):
+                f.add('module-partially-ignored')
+        if any(m.get('mutual') for m in proj['mods']):
+            f.add('mutual-recursion')
+        if any(m.get('muses') for m in proj['mods']):
+            f.add('module-level-import')
+        if any(Q.get('calls_iface') for q, Q in proj['procs'].items() if q in reach):
+            f.add('generic-interface-call')
         if len(drivers & reach) > 1 or any(v.get('role') == 'driver' for k, v in cfg['routines'].items()
                                            if k.split('#')[-1] not in [s.split('#')[-1] for s in cfg['seeds']]):
             f.add('driver-below-seed')
+        # a seed that is also called from the call tree of another seed
+        seednames = [BG.item_name(proj, q) for q in proj['procs'] for sd in cfg['seeds'] if BG.matches(BG.item_name(proj, q), [sd])]
+        if any(b in seednames for _, b in ref['edges']):
+            f.add('seed-is-callee')
         keys = {k.split('#')[-1] for k in cfg['routines']}
-        if set(scenario['dup_kernels']) & keys and any(s.startswith('Duplicate') for s in scenario['steps']):
+        dupset = set(scenario['dup_kernels'])
+        if 'DuplicateSub' in scenario['steps']:
+            # the whole subgraph below the kernels is duplicated
+            todo = list(dupset)
+            while todo:
+                q = todo.pop()
+                for c in proj['procs'].get(q, {}).get('calls', []):
+                    if c['to'] not in dupset:
+                        dupset.add(c['to'])
+                        todo.append(c['to'])
+        if dupset & keys and any(s.startswith('Duplicate') for s in scenario['steps']):
             f.add('duplicated-kernel-has-item-config')
+        # a module that is reached through an ignored routine only (e.g. for a parameter) while one of its
+        # procedures is an active item
+        for q in reach:
+            if q in proj['procs'] and ref['ignored'].get(BG.item_name(proj, q)) is not False:
+                Q = proj['procs'][q]
+                mods_used = set(Q['uses_var']) | set(Q['uses_param']) | {t[0] for t in Q['uses_type']}
+                for m in proj['mods']:
+                    if m['name'] in mods_used and any(
+                            ref['ignored'].get(BG.item_name(proj, r)) is False for r in m['procs'] if r in reach):
+                        f.add('module-imported-by-ignored-routine-has-active-procedure')
         if any(key in rc for rc in list(cfg['routines'].values()) + [cfg['default']]
                for key in ('ignore', 'block', 'disable')) or \
                 any(rc.get('expand') is False for rc in cfg['routines'].values()):
             f.add('pruned-graph')
         if any(v is None for v in ref['ignored'].values()):
             f.add('ignored-on-some-paths-only')
+        # a routine that is in the call tree through one caller but disabled/blocked in the entry of another
+        for k, rc in cfg['routines'].items():
+            p = k.split('#')[-1]
+            if p in reach and p in proj['procs']:
+                excl = {x.split('#')[-1] for key in ('disable', 'block') for x in rc.get(key, [])}
+                if any(c['to'] in excl and c['to'] in reach for c in proj['procs'][p]['calls']):
+                    f.add('excluded-on-some-paths-only')
         return '+'.join(sorted(f)) or 'none'
 
     def check(self, run, scenario, sched, label, done):
@@ -314,6 +410,17 @@ class ItemHistoryEngine(Engine):
                 bad('graph-membership', f'{it.name} iterates as a graph node but "item in graph" is False')
             if sched[it.name] is not it:
                 bad('scheduler-lookup', f'scheduler[{it.name!r}] does not return the graph item')
+        # every seed names an item of the graph
+        for sd in sched.seeds:
+            sd = str(sd).lower()
+            if not (sd in names if '#' in sd else any(n.split('#')[-1] == sd for n in names)):
+                bad('seed-not-an-item', f'seed {sd!r} names no item of the graph {sorted(names)[:6]}')
+        # steps that only rename keep the number of procedure items
+        nproc = sum(1 for it in items if isinstance(it, ProcedureItem) and not it.is_ignored)
+        prev = run.__dict__.get('_c25_nproc')
+        if prev is not None and label in ('Idem', 'Dependency', 'Dependency2') and nproc != prev:
+            bad('items-lost', f'{label} changed the number of non-ignored procedure items in the graph from {prev} to {nproc}')
+        run.__dict__['_c25_nproc'] = nproc
         # every call in a processed routine refers to a unit that exists in the graph (or is excluded by config)
         local_names = {it.local_name.split('#')[-1].lower() for it in items}
         gdis = tuple(x.lower() for x in sched.config.disable)
@@ -353,7 +460,8 @@ class ItemHistoryEngine(Engine):
                               for c in FindNodes(ir.CallStatement).visit(it.ir.body)]
                 except Exception:  # pylint: disable=broad-except
                     continue
-                base = [c.replace(scenario['suffix'].lower(), '') for c in cnames]
+                base = [c.replace(scenario['suffix'].lower(), '').replace(
+                    scenario.get('suffix2', '_b').lower() if 'Dependency2' in done else '\0', '') for c in cnames]
                 if 'Remove' in done and not any(d.startswith('Duplicate') for d in done[done.index('Remove'):]):
                     for k in scenario['rem_kernels']:
                         if k in base and k not in [x.split('#')[-1] for x in (*it.block, *it.disable)]:
@@ -419,11 +527,16 @@ class ItemHistoryEngine(Engine):
                     # ignored items are "processed elsewhere": their transformed versions (renamed with the
                     # suffix) are provided by another library, not by this conversion
                     cfg['default']['disable'] += [n, n + scenario['suffix'], f'{n}_dupl', f'{n}_dupl' + scenario['suffix']]
+                    if 'Dependency2' in done:
+                        s2_ = scenario.get('suffix2', '_b')
+                        cfg['default']['disable'] += [n + scenario['suffix'] + s2_, f'{n}_dupl' + scenario['suffix'] + s2_]
         for k, v in scenario['cfg']['routines'].items():
             if v.get('expand') is False:
                 cfg['routines'].setdefault(k, {})['expand'] = False
                 n = k.split('#')[-1]
                 cfg['routines'].setdefault(n + scenario['suffix'], {})['expand'] = False
+                if 'Dependency2' in done:
+                    cfg['routines'].setdefault(n + scenario['suffix'] + scenario.get('suffix2', '_b'), {})['expand'] = False
         try:
             s2 = Scheduler(paths=[out], config=SchedulerConfig.from_dict(cfg),
                            seed_routines=list(scenario['cfg']['seeds']), full_parse=True, frontend=FP)
